@@ -36,8 +36,14 @@ def check(ctx):
             path = os.path.join(tmp, 'cfg%d.xml' % k)
             xc.save_config(path)
             doc = open(path).read()
-            full = tree_sig(xml_handler.XMLRootElement.from_string(doc))
+            root_ = xml_handler.XMLRootElement.from_string(doc)
+            full = tree_sig(root_)
             n = len(doc)
+            # hypothesis of the theorem C18_truncated, checked on the document the real writer produced: the root's closing
+            # tag occurs exactly once, at the end
+            cl = '</%s>' % root_.tag
+            ctx.oblige('C18_truncated.hypothesis[saved document %d]' % k, doc.count(cl) == 1 and doc.rstrip().endswith(cl),
+                       'closing tag %s occurs %d times' % (cl, doc.count(cl)))
             if ctx.thorough:
                 offsets = list(range(0, n))
             else:
